@@ -1,6 +1,7 @@
 import Morlock.Props.C03
 import Morlock.Proofs.ABEngines
 import Morlock.Proofs.EngineKeys
+import Morlock.Proofs.ABTuroFuel
 /-!
 # C03 / C13 for the searches the bundled engines actually run
 
@@ -209,5 +210,107 @@ example : -2147483648 < (bernsteinGame Proofs.exZ 8).eval wE ∧ (bernsteinGame 
   bernsteinGame_evalOk Proofs.exZ 8 wE
 example : -2147483648 < (turochampGame Proofs.exZ).eval wE ∧ (turochampGame Proofs.exZ).eval wE < 2147483648 :=
   turochampGame_evalOk Proofs.exZ wE
+
+/-! ## fuel: TUROCHAMP's quiescence search does not need its fuel
+
+The Go quiescence search has no fuel; `Model.quiesce` has (the driver and the `c03` stream run `turochampLeaf zt 64`).
+`ConsiderableMovesOnly` is not captures-only (`C13.chess_enough_fuel` does not apply): a picked move is a capture **or a
+move that checkmates** (`turochamp_pick_capture_or_mate`). A capture removes a man, a mated world has no child, so the
+explored tree below a world with `k` men is exhausted within `k + 1` plies (`Proofs/ABTuroFuel.lean`): 65 in general,
+and 64 - the fuel that is run - on every board with at most 32 men. `Inv` is the play invariant of
+`Proofs/ABChessFuel.lean` (it holds for `newBoard` on a `WFplay` position and is preserved by `pushMove` of generated
+moves). -/
+
+section Fuel
+
+/-- **What TUROCHAMP's quiescence explores**: a picked move is a capture, or the board after it exists and its side to
+    move is checkmated. -/
+theorem turochamp_engine_pick (z : ZTable) (w : World) (m : Move) (h : (turochampExplore z w).pick m = true) :
+    m.isCapture = true ∨
+    ∃ w', w.pushMove z 0 m = some w' ∧ (w'.cur 0).pos.isCheckMate (w'.board 0).turn = true :=
+  turochamp_pick_capture_or_mate z w m h
+
+/-- **C13 (fuel) for the TUROCHAMP engine**, at every world `w` satisfying the play invariant `Inv`: the explored
+    quiescence tree is exhausted within 65 plies, the reference `Q` is the same for every fuel `≥ 65`, `quiesce` with
+    fuel 65 does not report `fuelOut`, and the reference `V` of the main search (any exploration, any depth) is the
+    same for every fuel `≥ 65` of its quiescence leaves. -/
+theorem turochamp_engine_enough_fuel (z : ZTable) (w : World) (h : Inv w) :
+    QDone (turochampGame z) (turochampExplore z) 65 w ∧
+    (∀ fuel', 65 ≤ fuel' →
+      Q (turochampGame z) (turochampExplore z) fuel' w = Q (turochampGame z) (turochampExplore z) 65 w) ∧
+    (∀ a b st, (quiesce (turochampGame z) (turochampExplore z) 65 w a b st).2.fuelOut = st.fuelOut) ∧
+    ∀ (ex : World → Explore) (rootPly : Int) (fuel' d : Nat), 65 ≤ fuel' →
+      V (turochampGame z) ex (turochampLeaf z fuel') rootPly d w =
+        V (turochampGame z) ex (turochampLeaf z 65) rootPly d w :=
+  ⟨turochamp_qdone z w h, (turochamp_enough_fuel z w h).1, (turochamp_enough_fuel z w h).2,
+   fun ex rootPly fuel' d hf => turochamp_V_fuel_irrelevant z ex rootPly fuel' hf d w h⟩
+
+/-- **C13 (fuel) for the TUROCHAMP engine with the fuel that is run (64)**, on every board with at most 32 men (every
+    position of a real game): the explored quiescence tree is exhausted within 64 (indeed 33) plies, the reference `Q`
+    is the same for every fuel `≥ 64`, and `quiesce` with fuel 64 does not report `fuelOut`. -/
+theorem turochamp_engine_enough_fuel_32 (z : ZTable) (w : World) (h : Inv w) (h32 : popCount (w.cur 0).pos.all ≤ 32) :
+    QDone (turochampGame z) (turochampExplore z) 64 w ∧
+    QDone (turochampGame z) (turochampExplore z) 33 w ∧
+    (∀ fuel', 64 ≤ fuel' →
+      Q (turochampGame z) (turochampExplore z) fuel' w = Q (turochampGame z) (turochampExplore z) 64 w) ∧
+    ∀ a b st, (quiesce (turochampGame z) (turochampExplore z) 64 w a b st).2.fuelOut = st.fuelOut :=
+  ⟨turochamp_qdone_32 z w h h32, turochamp_qdone_33 z w h h32, (turochamp_enough_fuel_32 z w h h32).1,
+   (turochamp_enough_fuel_32 z w h h32).2⟩
+
+-- on `wE` (`r3k2r/1P6/8/3pP3/8/8/8/R3K2R w KQkq d6`, 9 men): both forms apply, nothing is evaluated but the man count
+example :
+    (∀ fuel', 65 ≤ fuel' → Q (turochampGame Proofs.exZ) (turochampExplore Proofs.exZ) fuel' wE =
+      Q (turochampGame Proofs.exZ) (turochampExplore Proofs.exZ) 65 wE) ∧
+    (∀ a b st, (quiesce (turochampGame Proofs.exZ) (turochampExplore Proofs.exZ) 65 wE a b st).2.fuelOut = st.fuelOut) :=
+  ⟨(turochamp_engine_enough_fuel Proofs.exZ wE wE_inv).2.1, (turochamp_engine_enough_fuel Proofs.exZ wE wE_inv).2.2.1⟩
+
+theorem wE_men : popCount (wE.cur 0).pos.all ≤ 32 := by decide +kernel
+
+example :
+    (∀ fuel', 64 ≤ fuel' → Q (turochampGame Proofs.exZ) (turochampExplore Proofs.exZ) fuel' wE =
+      Q (turochampGame Proofs.exZ) (turochampExplore Proofs.exZ) 64 wE) ∧
+    (∀ a b st, (quiesce (turochampGame Proofs.exZ) (turochampExplore Proofs.exZ) 64 wE a b st).2.fuelOut = st.fuelOut) :=
+  ⟨(turochamp_engine_enough_fuel_32 Proofs.exZ wE wE_inv wE_men).2.2.1,
+   (turochamp_engine_enough_fuel_32 Proofs.exZ wE wE_inv wE_men).2.2.2⟩
+
+/-- `7k/8/6K1/8/8/8/8/1Q6 w`: White mates by the quiet move Qb1-b8. -/
+def wN : World :=
+  (({} : World).newBoard Proofs.exZ
+    ((Position.newPosition [(56, .black, .king), (41, .white, .king), (6, .white, .queen)] 0 0).getD {}) .white 0 1).1
+
+/-- Qb1-b8#. -/
+def qb8 : Move := { ty := .normal, «from» := 6, to := 62, piece := .queen }
+
+-- the mate branch is not vacuous, i.e. TUROCHAMP's exploration is **not** captures-only: on `wN` it picks the quiet
+-- move Qb8#, a generated move that `PushMove` accepts
+set_option maxRecDepth 100000 in
+example : qb8 ∈ (turochampGame Proofs.exZ).moves wN ∧ (turochampExplore Proofs.exZ wN).pick qb8 = true ∧
+    qb8.isCapture = false ∧ ((turochampGame Proofs.exZ).push wN qb8).isSome = true := by decide +kernel
+
+example : ¬ CapturesOnly (turochampExplore Proofs.exZ) := by
+  intro h
+  have h1 : (turochampExplore Proofs.exZ wN).pick qb8 = true := by decide +kernel
+  exact absurd (h wN qb8 h1) (by decide)
+
+/-- `wN` satisfies the play invariant. -/
+theorem wN_inv : Inv wN := by
+  have hv : Proofs.ValidPlacements [(56, .black, .king), (41, .white, .king), (6, .white, .queen)] := by
+    intro x hx
+    simp only [List.mem_cons, List.not_mem_nil, or_false] at hx
+    rcases hx with rfl | rfl | rfl <;> simp
+  have he : Position.newPosition [(56, .black, .king), (41, .white, .king), (6, .white, .queen)] 0 0 =
+      some ((Position.newPosition [(56, .black, .king), (41, .white, .king), (6, .white, .queen)] 0 0).getD {}) := by
+    decide +kernel
+  have hr := (Proofs.newPosition_rep hv he).1.self
+  unfold wN
+  exact inv_newBoard Proofs.exZ 0 1 ⟨⟨hr, by decide +kernel⟩, by decide +kernel⟩
+
+-- three men on `wN`: four plies exhaust TUROCHAMP's quiescence tree there (through the mate branch: Qb8# is explored)
+example : QDone (turochampGame Proofs.exZ) (turochampExplore Proofs.exZ) 4 wN :=
+  turochamp_qdone_men Proofs.exZ 2 wN wN_inv (by
+    rw [menP_eq_popCount wN_inv.2.2.1.rep]
+    decide +kernel)
+
+end Fuel
 
 end Morlock.Props.C13Engines
